@@ -26,7 +26,12 @@ CLAIM = dict(
     "one level of coarsening preserves it for even extents and provably does not for odd ones (witness n = 3, known finding); "
     "refine-then-coarsen is the identity; reduction(sum) is the array sum along the axis with unchanged total, reduction(average) = sum / count, "
     "integral relations of both modes; extrusion integral = integral x height; superposition on a shared grid = pointwise sum and "
-    "voxel-aligned superposition conserves the total. OBSERVED only (differential check + oracle): that OpenCV's INTER_AREA and "
+    "voxel-aligned superposition conserves the total; multi-level coarsening AS CODED (original axis length at every level): extents "
+    "divisible by 2^levels are conservative and raise nothing (all n, levels), odd first-level extents are not (all n), deeper failure modes "
+    "(silent broadcast at current extent 3, ValueError at 1 and 5) by witnesses - the full 'only if' is partial, checked exhaustively for "
+    "n <= 64, levels <= 3; Resize keeps dimensions/origin, plain area resizing preserves the integral and the conservative variant multiplies "
+    "it by the ratio of voxel counts; equalize_voxel_size keeps the extent, gives exactly k voxels for an extent of k voxel sizes and the nearest "
+    "integer in general. OBSERVED only (differential check + oracle): that OpenCV's INTER_AREA and "
     "warpPerspective kernels realise these models (Resize within 1e-6 relative, float32 area weights; superpose exactly), that numpy "
     "repeat/sum/slicing realise refinement/coarsening/reduction (exact), and all metadata (dimensions, origin, extents).",
     note="Level 'other': the conserved quantity of Resize is the documented array sum, not sum x voxel volume; the OpenCV kernels are a "
@@ -185,7 +190,8 @@ def run(ctx):
             if err > RTOL:
                 ctx.fail(f"C11:Resize(conservative,{kind}):array-sum-not-conserved", f"sum {s_in.tolist()} -> {s_out.tolist()} for {shape}->{tgt} ({dtype.__name__})",
                          {"op": "resize", "shape": shape, "target": tgt, "values": arr.ravel().tolist(), "trailing": trailing, "dtype": dtype.__name__})
-            if as_image and not np.allclose(res.dimensions, img.dimensions, rtol=0, atol=0):
+            if as_image and not (np.allclose(res.dimensions, img.dimensions, rtol=0, atol=0) and np.allclose(res.origin, img.origin, rtol=0, atol=0)
+                                 and np.allclose(res.voxel_size, [img.dimensions[k] / tgt[k] for k in range(2)], rtol=1e-15, atol=0)):
                 ctx.fail(f"C11:Resize(conservative,{kind}):dimensions-changed", f"{img.dimensions} -> {res.dimensions}", {"op": "resize", "shape": shape, "target": tgt})
             if not trailing and len(lines) < ctx.pick(400, 5000):
                 corr("resize", f"resize {shape[0]} {shape[1]} {tgt[0]} {tgt[1]} {flist(arr.ravel().tolist())}", out, False)
@@ -217,7 +223,13 @@ def run(ctx):
                 replay = {"op": "refine", "shape": shape, "level": lv, "values": arr.ravel().tolist(), "trailing": trailing}
                 if odd:
                     ok = (not isinstance(out, Raised)) and not isinstance(integ(d, out), Raised) and np.array_equal(integ(d, out), i0)
-                    if not ok:
+                    first_level_odd = any(n % 2 for n in shape)
+                    if not ok and not first_level_odd:
+                        # a different mechanism: the code uses the ORIGINAL extent at every level (broadcast of a single entry at current
+                        # extent 3, ValueError at current extents 1 and 5, 7, ...)
+                        ctx.fail("C11:uniform_refinement(levels<-1):original extent used at deeper levels(odd intermediate extent)",
+                                 f"shape {shape}, levels {lv}: " + (repr(out) if isinstance(out, Raised) else f"integral {i0.tolist()} -> {np.asarray(integ(d, out)).tolist()}"), replay)
+                    elif not ok:
                         ctx.fail("C11:uniform_refinement(levels<0):odd extent along coarsened axis",
                                  f"shape {shape}, levels {lv}: " + (repr(out) if isinstance(out, Raised) else f"integral {i0.tolist()} -> {np.asarray(integ(d, out)).tolist()}"), replay)
                     continue
@@ -374,11 +386,67 @@ def run(ctx):
             corr("superpose", line, res.img, True)
     ctx.cov["superpose_cases"] = n_sup
 
+    # ------------------------------------------------------------------ multi-level coarsening exactly as coded (1-D)
+    # characterisation: conservative for every image iff 2^levels divides the extent; otherwise halved last voxel (level 1),
+    # silently wrong broadcast (current extent 3) or ValueError (current extent 1 or odd >= 5)
+    n_coded = 0
+    for n in (range(1, 65) if ctx.big else list(range(1, 21)) + [24, 32, 40, 48, 64]):
+        arr = dy_array(rng, (n,))
+        img = image(d, arr, 1, [0.5 * n], False, True)
+        i0 = integ(d, img)
+        for lv in (1, 2, 3):
+            out = call(d.uniform_refinement, img, -lv)
+            n_coded += 1
+            ctx.count(("coded", n, lv))
+            corr("coded", f"coded {n} {lv} {flist(arr.tolist())}", out if isinstance(out, Raised) else (str(out.img.shape[0]), out.img), True)
+            if n % (2 ** lv) == 0:
+                i1 = None if isinstance(out, Raised) else integ(d, out)
+                if isinstance(out, Raised) or isinstance(i1, Raised) or not np.array_equal(i1, i0):
+                    ctx.fail("C11:uniform_refinement(levels<0):extent-divisible-by-2^levels-not-conservative", f"n={n} levels={-lv}: {out if isinstance(out, Raised) else i1} vs {i0}",
+                             {"op": "refine", "shape": (n,), "level": -lv, "values": arr.tolist(), "trailing": ()})
+    ctx.cov["coded_coarsening_cases"] = n_coded
+
+    # ------------------------------------------------------------------ equalize_voxel_size and Resize metadata
+    n_eq = 0
+    for trial in range(ctx.pick(120, 1500)):
+        h = rng.choice([0.5, 0.25, 0.1, 0.3, 1.1 / 7, 0.7 / 3, rng.uniform(0.01, 2.0)])
+        shape = (rng.randint(1, 12), rng.randint(1, 12))
+        ratio = [1, rng.choice([1, 2, 3, 5])]
+        rng.shuffle(ratio)
+        dims = [shape[k] * h * ratio[k] for k in range(2)]
+        origin = [rng.choice([0.0, 1.5, -2.0]), rng.choice([0.0, 4.0])]
+        arr = dy_array(rng, shape)
+        img = image(d, arr, 2, dims, False, True, origin)
+        explicit = trial % 3 == 0
+        out = twice(ctx, d, "equalize_voxel_size", [img],
+                    (lambda: d.equalize_voxel_size(img, voxel_size=h, interpolation="inter_area")) if explicit else (lambda: d.equalize_voxel_size(img, interpolation="inter_area")),
+                    {"op": "equalize", "shape": shape, "dims": dims, "origin": origin, "voxel_size": h if explicit else None, "values": arr.ravel().tolist()})
+        n_eq += 1
+        ctx.count(("equalize", shape, tuple(ratio), h, explicit))
+        replay = {"op": "equalize", "shape": shape, "dims": dims, "origin": origin, "voxel_size": h if explicit else None, "values": arr.ravel().tolist()}
+        if isinstance(out, Raised):
+            ctx.fail("C11:equalize_voxel_size:raises", repr(out), replay)
+            continue
+        want = tuple(shape[k] * ratio[k] for k in range(2))  # extent / voxel size is an integer along both axes
+        if tuple(out.img.shape[:2]) != want:
+            ctx.fail("C11:equalize_voxel_size:voxel-count(extent-is-integer-multiple-of-voxel-size)",
+                     f"shape {shape}, dimensions {dims}, voxel sizes {img.voxel_size}: result shape {out.img.shape[:2]}, voxel sizes {out.voxel_size}; "
+                     f"extent / voxel size is {want} (the unified voxel size would be {h})", replay)
+        elif not np.allclose(out.voxel_size, [h, h], rtol=1e-12, atol=0):
+            ctx.fail("C11:equalize_voxel_size:voxel-size-not-unified", f"{out.voxel_size} != {h}", replay)
+        if not (np.allclose(out.dimensions, dims, rtol=0, atol=0) and np.allclose(out.origin, origin, rtol=0, atol=0)):
+            ctx.fail("C11:equalize_voxel_size:extent-changed", f"dimensions {dims} -> {out.dimensions}, origin {origin} -> {list(out.origin)}", replay)
+        if h in (0.5, 0.25):  # dyadic: float quotients exact, the model's floor(d / vs + 1/2) must agree
+            corr("equalize", f"equalize {flist(shape)} {flist(dims)} {fmts([h]) if explicit else 'none'}", (" ".join(map(str, out.img.shape[:2])), None), True)
+    ctx.cov["equalize_cases"] = n_eq
+
     # ------------------------------------------------------------------ correspondence
     got = ctx.model(lines)
     bad = []
     for i, (g, a, ex) in enumerate(zip(got, impl, exact)):
-        if isinstance(a, tuple):  # "shape | values"
+        if isinstance(a, tuple) and a[1] is None:  # shape only
+            ok = g.strip() == a[0]
+        elif isinstance(a, tuple):  # "shape | values"
             shp, arr = a
             ok = " | " in g and g.split(" | ")[0].strip() == shp and vals_close(g.split(" | ")[1], arr, ex)
         else:
